@@ -76,6 +76,13 @@ def configs(thorough: bool) -> List[Dict[str, Any]]:
             roc = dict(cfg)
             roc["card_writable"] = False       # read-only card (Python only: the Rust image has no such switch)
             out.append(roc)
+        if rom and not ovl and not mirror and not ro and card is None:
+            lap = dict(cfg)
+            # a RAM overlay laid across the start of the ROM window (Python bus: the overlay that starts lower owns the shared bytes);
+            # which overlay answers must not depend on what was accessed before
+            lap["ram_overlays"] = [(0xBFFF0, 0x20)]
+            lap["overlap"] = True
+            out.append(lap)
         if rom and not mirror and not ro:
             short = dict(cfg)
             short["rom_len"] = 0x100          # image shorter than the 0xC0000-0xFFFFF window (Python only: overlay data < window)
@@ -253,7 +260,7 @@ def judge(impl, cfg, hist, outs, probe_vals, pr, vb: VB, pre_probe: Optional[Lis
     violation is attributed to the operation that causes it; with pre_probe=None the whole history is judged
     against the reference (used for the initial state and the load scripts)."""
     wit = lambda: {"impl": impl, "cfg": _cfg_json(cfg), "history": [list(o) for o in hist]}  # noqa: E731
-    cfgtag = "+".join(k for k in ("rom_image", "rom_len", "card", "ram_overlays", "taps", "readonly", "mirror") if cfg.get(k)) or "plain"
+    cfgtag = "+".join(k for k in ("rom_image", "rom_len", "card", "ram_overlays", "taps", "overlap", "readonly", "mirror") if cfg.get(k)) or "plain"
     if cfg.get("card_writable") is False:
         cfgtag += "+card-readonly"
     if cfg.get("underlay"):
@@ -452,12 +459,12 @@ def run(ctx) -> None:
     jobs = []
     n = nproc()
     for impl in ("python", "rust"):
-        use = [c for c in cfgs if (impl == "rust" and not c.get("rom_len") and c.get("card_writable", True) and not c.get("underlay")) or (impl == "python" and not (c.get("mirror") or c.get("readonly") or c.get("taps")))]
+        use = [c for c in cfgs if (impl == "rust" and not c.get("rom_len") and c.get("card_writable", True) and not c.get("underlay") and not c.get("overlap")) or (impl == "python" and not (c.get("mirror") or c.get("readonly") or c.get("taps")))]
         for cs in chunks(use, n):
             jobs.append((impl, cs, evs, small if not ctx.thorough else evs[::2], depth))
     res = pmap(_shard, jobs)
     lres = pmap(_loads, [(impl, cs) for impl in ("python", "rust")
-                         for cs in chunks([c for c in cfgs if (impl == "rust" and not c.get("rom_len") and c.get("card_writable", True) and not c.get("underlay")) or (impl == "python" and not (c.get("mirror") or c.get("readonly") or c.get("taps")))], 4)])
+                         for cs in chunks([c for c in cfgs if (impl == "rust" and not c.get("rom_len") and c.get("card_writable", True) and not c.get("underlay") and not c.get("overlap")) or (impl == "python" and not (c.get("mirror") or c.get("readonly") or c.get("taps")))], 4)])
     ldres = pmap(_loaders, [("system_image", 0x100000), ("system_image", 0x40000), ("rom_window", 0x40000)])
     ctx.coverage["loader_entry_point_accesses"] = sum(r["n"] for r in ldres)
     for r in res + lres + ldres:
